@@ -609,3 +609,84 @@ Section Static.
   Proof. apply clobbers_prog_false. exact Hcl. Qed.
 
 End Static.
+
+(* ---------- the datapath after the install and change-program messages ---------- *)
+
+Lemma tiles_small devs : forall next flags bodies, tiles_abs next devs flags bodies ->
+  next + N.of_nat (fold_right plus 0 flags + fold_right plus 0 bodies)%nat < 4294967296 -> Forall devent_small devs.
+Proof.
+  induction devs as [|d r IH]; intros next flags bodies Ht Hb; [constructor|].
+  destruct flags as [|f fr]; [destruct Ht|]. destruct bodies as [|b br]; [destruct Ht|].
+  cbn [tiles_abs] in Ht. destruct Ht as (H1 & H2 & _ & H3 & H4 & Hr). cbn [fold_right] in Hb.
+  constructor.
+  - unfold devent_small. rewrite H1, H2, H3, H4. lia.
+  - eapply IH; [exact Hr|]. lia.
+Qed.
+
+Definition conn_loaded : conn := mkConn 1 true 1000 0 (Some 1) regs0 (repeat None 110) None None prims0.
+
+Lemma read_changeprog_77 p0 : dp_index p0 = 1 -> dp_uid p0 = 77 -> forall cp d3 rc,
+  serialize_changeprog 1 77 0 [] = Ok cp ->
+  read_msg (mkDp 1000 1000 [p0] (Some (mkConn 1 true 1000 0 None regs0 (repeat None 110) None None prims0))) cp = (rc, d3) ->
+  rc = 0%Z -> d3 = mkDp 1000 1000 [p0] (Some conn_loaded).
+Proof.
+  intros Hi Hu cp d3 rc Hcp Hr Hrc. vm_compute in Hcp. inversion Hcp; subst cp; clear Hcp.
+  destruct p0 as [idx uid xs is ntr]. cbn in Hi, Hu. subst idx uid.
+  vm_compute in Hr. inversion Hr; subst. reflexivity.
+Qed.
+
+Lemma skipn_exact {A} (a b : list A) n : length a = n -> skipn n (a ++ b) = b.
+Proof. intros <-. rewrite skipn_app, skipn_all, Nat.sub_diag. reflexivity. Qed.
+
+Lemma load_machine devs instrs image im d1 rc1 :
+  serialize_bin (mkBin devs instrs) = Ok image ->
+  (exists flags bodies pre, tiles_abs (N.of_nat pre) devs flags bodies /\
+      (pre + (fold_right plus 0 flags + fold_right plus 0 bodies) <= length instrs)%nat) ->
+  serialize_install 0 77 (N.of_nat (length devs)) (N.of_nat (length instrs)) (Ok image) = Ok im ->
+  read_msg dp_init im = (rc1, d1) -> rc1 = 0%Z ->
+  d1 = mkDp 1000 1000 [mkDProg 1 77 (map dexpr_of devs) (map dinstr_of instrs) 0] None.
+Proof.
+  intros Hser (flags & bodies & pre & Htile & Hsum) Him Hr Hrc. subst rc1.
+  unfold serialize_bin in Hser. cbn [b_instrs b_events] in Hser.
+  apply bind_ok_inv in Hser. destruct Hser as (ibytes & Hib & Hser). inversion Hser; subst image; clear Hser.
+  pose proof (ser_instrs_length _ _ Hib) as Lib. pose proof (ser_events_length devs) as Lev.
+  set (ne := N.of_nat (length devs)) in *. set (ni := N.of_nat (length instrs)) in *.
+  pose proof Him as Him0. unfold serialize_install in Him0. apply serialize_gen_ok in Him0.
+  destruct Him0 as (Hlen & b & Hb & Heq). inversion Hb; subst b; clear Hb.
+  assert (Hne : ne < 4096 /\ ni < 4096) by lia. destruct Hne as [Hne Hni].
+  destruct (install_honest 0 77 ne ni _ im ltac:(lia) ltac:(lia) ltac:(lia)
+              ltac:(rewrite app_length, Lev, Lib; unfold ne, ni; rewrite !Nat2N.id; lia) Him) as (H2 & H0 & _).
+  unfold read_msg in Hr. rewrite H0, H2 in Hr.
+  change (negb ((2 =? 2) || (2 =? 3) || (2 =? 4))) with false in Hr. cbv iota in Hr.
+  rewrite N.ltb_irrefl in Hr.
+  destruct (32678 <? N.of_nat (length im)) eqn:E1; [inversion Hr|].
+  change (2 =? 2) with true in Hr. cbv iota in Hr.
+  (* the body *)
+  assert (Hbody : skipn 8 im = enc_le 4 77 ++ enc_le 4 ne ++ enc_le 4 ni ++ (concat (map ser_event devs) ++ ibytes)).
+  { rewrite Heq. rewrite skipn_exact by apply CodecRoundtrip.ser_header_length. rewrite <- !app_assoc. reflexivity. }
+  rewrite Hbody in Hr.
+  destruct (enc4 77) as (u0 & u1 & u2 & u3 & Eu). destruct (enc4 ne) as (a0 & a1 & a2 & a3 & Ea). destruct (enc4 ni) as (b0 & b1 & b2 & b3 & Eb).
+  rewrite Eu, Ea, Eb in Hr. cbn [app] in Hr.
+  unfold le32, le_at, sub in Hr. cbn [skipn firstn Nat.sub Nat.add] in Hr.
+  rewrite (dec4 _ _ _ _ _ Eu), (dec4 _ _ _ _ _ Ea), (dec4 _ _ _ _ _ Eb) in Hr.
+  change (77 mod 4294967296 =? 1) with false in Hr. cbv iota in Hr.
+  rewrite !N.mod_small in Hr by lia.
+  change (d_progs dp_init) with (@nil dprog) in Hr. change (Nat.leb (MAX_PROGRAMS - 1) (length (@nil dprog))) with false in Hr. cbv iota in Hr.
+  unfold ne, ni in Hr. rewrite !Nat2N.id in Hr.
+  rewrite (read_ser_events devs ibytes) in Hr.
+  2:{ eapply tiles_small; [exact Htile|]. unfold ni in Hni. lia. }
+  replace (16 * length devs)%nat with (length (concat (map ser_event devs))) in Hr by (rewrite Lev; reflexivity).
+  rewrite skipn_exact in Hr by reflexivity.
+  rewrite <- (app_nil_r ibytes) in Hr.
+  destruct (read_instrs (length instrs) (ibytes ++ [])) as [e|dis] eqn:Eri.
+  - exfalso. inversion Hr as [[H4 Hd1]]. clear Hr Hd1.
+    (* read_instrs only fails with libccp's negative error codes *)
+    clear - Eri H4. revert Eri. generalize (ibytes ++ []). generalize (length instrs).
+    induction n as [|n IH]; intros l; cbn [read_instrs]; [discriminate|].
+    destruct (read_instruction (firstn 16 l)) as [e1|i1] eqn:E1.
+    + intros Hq. inversion Hq; subst e1. unfold read_instruction in E1.
+      repeat match type of E1 with context [if ?c then _ else _] => destruct c end;
+        repeat match type of E1 with context [match ?x with Some _ => _ | None => _ end] => destruct x end; inversion E1; congruence.
+    + destruct (read_instrs n (skipn 16 l)) as [e2|r2] eqn:E2; [|discriminate]. intros Hq. inversion Hq; subst e2. eapply IH; eauto.
+  - apply (read_ser_instrs_inv _ _ _ _ Hib) in Eri. subst dis. inversion Hr; subst. reflexivity.
+Qed.
